@@ -297,7 +297,7 @@ func init() {
 		}
 		if c.Want("malformed") {
 			st := c.Stat("malformed", "enumeration")
-			st.Bounds = "every truncation and every single-bit flip of 5 small streams per format, plus trailing garbage; each followed by a decode of the unmodified stream"
+			st.Bounds = "every truncation and every single-bit flip of 5 small streams per format, plus trailing garbage; each followed by a decode of the unmodified stream; zstd frame headers (every descriptor byte x 4 fill bytes, declared content sizes up to 2^64-1) and snappy length prefixes up to 64 MiB / overlong"
 			inputs := [][]byte{{}, []byte("a"), []byte("hello hello hello hello"), bytes.Repeat([]byte("ab"), 40), lcg(48, 3)}
 			var idx int64
 			for _, enc := range []string{"gzip", "br", "lz4", "zst", "snz"} {
@@ -338,6 +338,37 @@ func init() {
 						m[k/8] ^= 1 << uint(k%8)
 						try(m, fmt.Sprintf("bit flip %d", k))
 					}
+				}
+			}
+			// frame headers that declare sizes: zstd's frame header descriptor (all 256 values) followed by 14 bytes of
+			// 00 / 7f / 80 / ff (window descriptor, dictionary id, content size up to 2^64-1), alone and in front of a valid frame;
+			// snappy's length prefix declaring up to 64 MiB for a few literal bytes
+			{
+				valid := refEncode("zst", []byte("hello hello hello hello"))
+				try := func(enc string, mut []byte, what string) {
+					idx++
+					if !c.Mine(idx) {
+						return
+					}
+					st.Execs++
+					_, _, pan, hung := guarded(func() ([]byte, error) { return srv.Decompress(enc, mut) })
+					if pan != "" {
+						c.Violation("malformed", "decoder-panic-"+enc, fmt.Sprintf("%s: %s", what, pan), nil, map[string]interface{}{"enc": enc, "stream": fmt.Sprintf("%x", mut)}, nil)
+					}
+					if hung {
+						c.Violation("malformed", "decoder-hang-"+enc, what, nil, map[string]interface{}{"enc": enc, "stream": fmt.Sprintf("%x", mut)}, nil)
+						c.AbortAfterHang()
+					}
+				}
+				for fhd := 0; fhd < 256; fhd++ {
+					for _, fill := range []byte{0x00, 0x7f, 0x80, 0xff} {
+						h := append([]byte{0x28, 0xb5, 0x2f, 0xfd, byte(fhd)}, bytes.Repeat([]byte{fill}, 14)...)
+						try("zst", h, fmt.Sprintf("zstd frame header descriptor %#02x followed by 14 x %#02x", fhd, fill))
+						try("zst", append(append([]byte(nil), h...), valid...), fmt.Sprintf("zstd frame header descriptor %#02x followed by 14 x %#02x and a valid frame", fhd, fill))
+					}
+				}
+				for _, pre := range [][]byte{{0xff, 0xff, 0xff, 0x1f}, {0x80, 0x80, 0x80, 0x20}, {0xff, 0xff, 0xff, 0xff, 0xff, 0xff, 0xff, 0xff, 0xff, 0x01}, {0x80, 0x80, 0x80, 0x80, 0x80}} {
+					try("snz", append(append([]byte(nil), pre...), 0x0c, 'a', 'b', 'c', 'd'), fmt.Sprintf("snappy block with length prefix %x", pre))
 				}
 			}
 			st.States, st.Transitions, st.Nontrivial = st.Execs, st.Execs, st.Execs
